@@ -65,7 +65,9 @@ def run(
     Raises TlcError on parse errors / crashes (not on property violations)."""
     work = keep_dir or scratch_dir("tlc-")
     meta = os.path.join(work, "meta")
-    cmd = ["java", "-XX:+UseParallelGC", "-Xmx8g", "-Xss32m"] + (jvm or []) + ["-cp", JAR_CP, "tlc2.TLC"]
+    jtmp = os.path.join(work, "jtmp")   # TLC unpacks its standard modules into java.io.tmpdir and leaves them behind
+    os.makedirs(jtmp, exist_ok=True)
+    cmd = ["java", "-XX:+UseParallelGC", "-Xmx8g", "-Xss32m", f"-Djava.io.tmpdir={jtmp}"] + (jvm or []) + ["-cp", JAR_CP, "tlc2.TLC"]
     cmd += ["-workers", str(workers), "-metadir", meta, "-noGenerateSpecTE"]
     cfg_path = cfg if os.path.isabs(cfg) else os.path.join(SPEC_DIR, "cfg", cfg)
     cmd += ["-config", cfg_path]
@@ -100,6 +102,7 @@ def run(
         shutil.rmtree(work, ignore_errors=True)   # scratch (TLC metadir) is not needed any more
     elif not keep_dir:
         shutil.rmtree(meta, ignore_errors=True)
+        shutil.rmtree(jtmp, ignore_errors=True)
     ms = _RE_STATES.findall(out)
     if ms:
         res.generated, res.distinct = int(ms[-1][0]), int(ms[-1][1])
